@@ -689,6 +689,13 @@ func (fg *FuncGen) trCall(x *SCall, env *SpecEnv, hint types.Type) Val {
 			cs = append(cs, fg.unchangedTerm(a, env))
 		}
 		return Val{T: and(cs...), Typ: B}
+	case "same":
+		// structural identity (for floats: same IEEE datum, NaN included)
+		a, b := fg.trPair(x.Args[0], x.Args[1], env, nil)
+		return Val{T: fmt.Sprintf("(= %s %s)", a.T, b.T), Typ: B}
+	case "isnan":
+		v := arg(0, types.Typ[types.Float64])
+		return Val{T: fmt.Sprintf("(fp.isNaN %s)", v.T), Typ: B}
 	case "allocated":
 		v := arg(0, nil)
 		return Val{T: fmt.Sprintf("(< %s %s)", v.T, fg.allocTerm(env.st)), Typ: B}
